@@ -12,8 +12,15 @@ def sigNumOf (name : String) : Option Nat :=
   ["Test", "Statement", "Emergency", "Watch", "Warning", "Unknown"].idxOf? name
 
 /-- `code`: the UTF-8 bytes of the event string; the rest: the implementation's answer -/
-def oracleEvt (code : List Nat) (phen sig : String) (num : Nat) (disp : List Nat) : Option String :=
+def oracleEvt (code : List Nat) (phen sig : String) (num : Nat) (disp : List Nat)
+    (test unrec : Bool) : Option String :=
+  -- the phenomena that are tests whatever their significance
+  let testPhen := ["NationalAudibleTest", "NationalPeriodicTest", "NationalSilentTest", "RequiredMonthlyTest", "RequiredWeeklyTest"]
   if disp.contains 37 then some "display string keeps an unexpanded '%'"
+  else if test != (sig == "Test" || testPhen.contains phen) then
+    some "is_test() is inconsistent: it must be true exactly when the significance is Test or the phenomenon is a test"
+  else if unrec != (phen == "Unrecognized" || sig == "Unknown") then
+    some "is_unrecognized() is inconsistent with the decoded phenomenon/significance"
   else if sigNumOf sig != some num then some "numeric significance is not the index in Test<Statement<Emergency<Watch<Warning<Unknown"
   else
     match publishedCodes.find? (fun r => r.1 == code) with
